@@ -4,7 +4,7 @@ the two repair sites the tree implements), a differential run of the real msg se
 begin- and end-blockers against the model, and the spec checker vm_computed on the real observations."""
 import json, os, re
 
-FILES = ["Base/Prelude.v", "Base/Dec.v", "Model/Pools.v", "Gen/C10Cfg.v", "Model/C10Check.v", "Proofs/Pools.v"]
+FILES = ["Base/Prelude.v", "Base/Dec.v", "Model/Pools.v", "Gen/C10Cfg.v", "Model/C10Check.v", "Proofs/Pools.v", "Proofs/PoolsTree.v"]
 CAP_SUM_1 = {1}          # harness configurations whose stake caps sum to 1
 
 
@@ -33,6 +33,13 @@ def sig_of(case, clause):
         feat = "stranger" if step.get("claimant_is_not_owner") else "owner"
     elif name == "signing_credited":
         feat = "votes_wiped" if step.get("power_seen_by_allocate", 0) < step.get("prev_proposer_signed_in_window", 0) else "power_ge_signing_record"
+    elif name.startswith("credited_beyond_signing_record"):
+        name = "credited_beyond_signing_record"      # the amount varies with the fees; the failing class is the vote of a non-signer
+        feat = "nonsigner_vote_counted"
+    elif name == "delegator_dropped":
+        feat = "still_holds_shares"
+    elif name == "registry_supply":
+        feat = "bank_burn" if kind == "undelegate" else "other"
     elif name.startswith("credited_le_"):
         name, _, exc = name.partition("+")
         feat = ("rounding+1" if exc in ("", "1") else "excess+" + exc) + (":capsum1" if case["cfg"] in CAP_SUM_1 else ":capsum<1")
@@ -53,7 +60,7 @@ def report(R, cases, viol):
 
 def run(R):
     R.trusted += ["hand-written model Model/Pools.v of multistaking Delegate/Undelegate/claims/SlashStakingPool/IncreasePoolRewards/auto-compound/RegisterDelegator and distributor AllocateTokens/BeginBlocker/EndBlocker, validated step by step by the differential run",
-                  "translator harness/cmd/gen_c10 (go/ast): reads which variant of ClaimUndelegation (owner comparison) and of the EndBlocker vote deletion the tree implements",
+                  "translator harness/cmd/gen_c10 (go/ast): reads which variant the tree implements at six sites (ClaimUndelegation owner comparison, EndBlocker vote deletion, BeginBlocker votes for signers only, Undelegate share-denom prefix / share conversion / burn path); other shapes are rejected",
                   "sdk.Dec arithmetic of Base/Dec.v (Mul / RoundInt, banker's rounding); bank module as a ledger of balances and supply",
                   "no axioms: every theorem of Properties/C10.v is closed under the global context"]
     R.assume += ["one pool (validator with pool), one validator without pool, unknown proposers; the pool validator stays active; fewer delegators than MaxDelegators (no push-out)",
